@@ -389,6 +389,7 @@ func API(c Case) (out Case) {
 				go func() {
 					for m := range ch {
 						models = append(models, nnBools(m))
+						consumerDelay(cfg)
 					}
 					closed = true
 					close(done)
@@ -396,7 +397,7 @@ func API(c Case) (out Case) {
 				ret = s.Enumerate(ch, nil)
 				select {
 				case <-done:
-				case <-time.After(300 * time.Millisecond):
+				case <-time.After(2 * time.Second):
 				}
 			} else {
 				ret = s.Enumerate(nil, nil)
@@ -414,6 +415,7 @@ func API(c Case) (out Case) {
 				go func() {
 					for x := range ch {
 						stream = append(stream, resultRec(x))
+						consumerDelay(cfg)
 					}
 					closed = true
 					close(done)
@@ -421,7 +423,7 @@ func API(c Case) (out Case) {
 				res = s.Optimal(ch, nil)
 				select {
 				case <-done:
-				case <-time.After(300 * time.Millisecond):
+				case <-time.After(2 * time.Second):
 				}
 			} else {
 				res = s.Optimal(nil, nil)
@@ -449,6 +451,13 @@ func API(c Case) (out Case) {
 		evs = append(evs, r)
 	}
 	return out
+}
+
+// consumerDelay makes the receiving goroutine slower than the producer (cfg.delayUs microseconds).
+func consumerDelay(cfg M) {
+	if d := num(cfg, "delayUs"); d > 0 {
+		time.Sleep(time.Duration(d) * time.Microsecond)
+	}
 }
 
 func resultRec(x solver.Result) M {
